@@ -50,6 +50,10 @@ def _candidates(plan):
         c = P(plan)
         c["knobs"]["alt_phases"] = []
         yield "all phases in the run's own interpreter", c
+    if plan.get("knobs", {}).get("opt_phases"):
+        c = P(plan)
+        c["knobs"]["opt_phases"] = []
+        yield "no phase under python -O", c
     # drop whole phases
     for i in range(len(phases)):
         if len(phases) > 1:
@@ -57,9 +61,10 @@ def _candidates(plan):
             del c["phases"][i]
             if isinstance(c.get("schedule"), list) and c["schedule"] and isinstance(c["schedule"][0], list) and i < len(c["schedule"]):
                 del c["schedule"][i]
-            ap = c.get("knobs", {}).get("alt_phases")
-            if ap:
-                c["knobs"]["alt_phases"] = [x - 1 if x > i else x for x in ap if x != i]
+            for key in ("alt_phases", "opt_phases"):
+                ap = c.get("knobs", {}).get(key)
+                if ap:
+                    c["knobs"][key] = [x - 1 if x > i else x for x in ap if x != i]
             yield f"drop phase {i}", c
     # drop sessions / tasks / ops
     for i, ph in enumerate(phases):
